@@ -75,6 +75,7 @@ class Improve(Suite):
 
 
 class Bio(Suite):
+    seasoned_rate = 0.12     # share of the cases run on algorithm objects that have served before (algos.seasoned)
     names_rate, past_rate = 0.06, 0.06     # hostile element names / datasets with a past (gen.decorate_cases)
     name = "bioconsert"
     imports = ["Scheme", "Rank", "BioConsert", "Judge.JBio"]
@@ -106,6 +107,41 @@ class Bio(Suite):
             first = noisy(rng.randint(2, 4))
             D = [first, [list(b) for b in first]] + [noisy(rng.randint(2, 5)) for _ in range(rng.randint(1, 3))] + [[[e] for e in hidden]]
             cases.append({"s": gen.UNIFYING, "D": D, "starters": rng.choice(["none", "none", "borda+copeland+pickaperm"]), "one": rng.random() < 0.3})
+        # incomplete datasets in which some rankings are a single bucket over a part of the universe, under schemes where ties are cheap:
+        # the all-tied departure (one of the starting points the statement names) is then the best one, and no input ranking stands for it
+        # (the local search reaches it from the other departures in about 99 cases out of 100: hence the number of cases)
+        for _ in range(100 if tier == "quick" else 1500):
+            n = rng.randint(3, 6)
+            univ = list(range(n))
+            D = []
+            for _ in range(rng.randint(2, 4)):
+                part = [e for e in univ if rng.random() < 0.6] or [rng.choice(univ)]
+                if rng.random() < 0.9:
+                    D.append([part])
+                else:
+                    rng.shuffle(part)
+                    k = rng.randint(1, len(part))
+                    D.append([part[:k]] + [[e] for e in part[k:]])
+            p = rng.choice([0.25, 0.5, 0.125])
+            s = rng.choice([[[0.0, 1.0, p, 0.0, 0.0, 0.0], [p, p, 0.0, 0.0, 0.0, 0.0]]] * 4 + [[[0.0, 1.0, p, 0.0, 1.0, p], [p, p, 0.0, p, p, 0.0]],
+                            [[0.0, 1.0, p, 0.0, 1.0, 0.0], [p, p, 0.0, p, p, 0.0]]])
+            cases.append({"s": s, "D": D, "starters": "none", "one": rng.random() < 0.4})
+        # ... and the shape on which the search from the input rankings stays on a plateau above it: two single-bucket rankings that overlap
+        for _ in range(90 if tier == "quick" else 1000):
+            n = rng.randint(3, 7)
+            univ = list(range(n))
+            rng.shuffle(univ)
+            a = rng.randint(1, n - 2)
+            b = rng.randint(1, n - 1 - a)
+            A, B, C = univ[:a], univ[a:a + b], univ[a + b:]
+            D = [[A + C], [B + C]]
+            if rng.random() < 0.3:
+                D.append([list(rng.choice([A + C, B + C]))])
+            if rng.random() < 0.3:
+                D.append([[e] for e in rng.sample(univ, rng.randint(1, 2))])
+            p = rng.choice([0.25, 0.5, 0.125])
+            s = rng.choice([[[0.0, 1.0, p, 0.0, 0.0, 0.0], [p, p, 0.0, 0.0, 0.0, 0.0]]] * 3 + [[[0.0, 1.0, p, 0.0, 1.0, p], [p, p, 0.0, p, p, 0.0]]])
+            cases.append({"s": s, "D": D, "starters": "none", "one": rng.random() < 0.4})
         return cases
 
     def run(self, case):
@@ -127,6 +163,8 @@ class Bio(Suite):
         try:
             if starts is not None:
                 out["starts"] = [lst(a.compute_consensus_rankings(ds, sc, True).consensus_rankings[0]) for a in starts]
+            if case.get("seasoned"):
+                seasoned(alg, case["D"], case["s"])
             cons = alg.compute_consensus_rankings(ds, sc, case["one"])
             out["cons"] = [lst(r) for r in cons.consensus_rankings]
             out["score"] = to_units(cons.kemeny_score)
